@@ -155,10 +155,14 @@ def build_probe(kind, logfile, ctl=None, name="probe", by_value=False, hidden=No
     return probe.Probe(kind, logfile=logfile, ctl=ctl, name=name, hidden=hidden)
 
 
-def sow(crop, w, shuffle_at_sow=None, spelling="dict", verbosity=0, names_from_farmer=False, **kw):
+def sow(crop, w, shuffle_at_sow=None, spelling="dict", verbosity=0, names_from_farmer=False, constants_as="dict", **kw):
     """Sow the workload `w` on `crop` through the appropriate entry point."""
     combos = [(a, list(v)) for a, v in w["combos"]]
     consts = dict(w["constants"]) or None
+    if consts and constants_as == "pairs":
+        consts = list(consts.items())
+    elif consts and constants_as == "zip":
+        consts = zip(list(consts), list(consts.values()))        # a one-shot iterable of (name, value) pairs
     if w["mode"] == "grid" or w.get("via") == "sow_combos":
         extra = {}
         if shuffle_at_sow == "keep":
